@@ -83,6 +83,9 @@ Definition rres_ok (expected : list (Z * bytes)) (r : rres) (o : rp) : bool :=
   && commits_ok (flat_map (fun e => match e with EvCommit p c t => [(p, c, t)] | _ => [] end) (rr_ev r)) commits
   && (negb (err =? 0) || ((rr_pos r =? pos) && (rr_crc r =? crc))).
 
+Fixpoint first_ok {A} (f : A -> bool) (l : list A) : bool :=
+  match l with [] => false | x :: r => if f x then true else first_ok f r end.
+
 Definition rp_ok (umagic schema : Z) (files : list (Z * bytes)) (expected : list (Z * bytes)) (o : rp) : bool :=
   let '(RP m from meta _ _ _ _ _) := o in
   let img := match m with
@@ -90,9 +93,11 @@ Definition rp_ok (umagic schema : Z) (files : list (Z * bytes)) (expected : list
              | MTrunc k => truncate_files k files
              | MFlip fi i bit => flip_files (Z.to_nat fi) (Z.to_nat i) bit (map snd files)
              end in
-  (* faithful model first; the repaired variants are accepted too (dual model) *)
-  rres_ok expected (replay false false umagic schema img from meta) o
-  || rres_ok expected (replay true true umagic schema img from meta) o.
+  (* faithful model first; every combination of the repairs (levRotateTo.Crc32 check, chunk chain check, incomplete
+     header skipped) is accepted too (dual model); evaluated lazily *)
+  first_ok (fun v => let '(a, b, c) := v in rres_ok expected (replay3 a b c umagic schema img from meta) o)
+           [(false, false, false); (true, true, true); (true, false, false); (true, true, false); (true, false, true);
+            (false, false, true)].
 
 Fixpoint files_eqb (a : list (Z * bytes)) (b : list (Z * list seg)) : bool :=
   match a, b with
